@@ -126,6 +126,22 @@ func (env *SpecEnv) eval(e *SExpr) SVal {
 		}
 		ne.vars = nv
 		return ne.eval(e.Args[0])
+	case "loopentry":
+		le := env.fv.loopEntry
+		if le == nil {
+			env.fail("loopentry() is only available in loop invariants")
+		}
+		ne := *env
+		ne.st = le
+		if env.frame != nil {
+			ne.frame = nil
+			for _, f := range le.frames {
+				if f.id == env.frame.id {
+					ne.frame = f
+				}
+			}
+		}
+		return ne.eval(e.Args[0])
 	case "ident":
 		return env.ident(e.Name)
 	case "sel":
@@ -135,6 +151,12 @@ func (env *SpecEnv) eval(e *SExpr) SVal {
 	case "in":
 		k := env.eval(e.Args[0])
 		m := env.eval(e.Args[1])
+		if k.NoCall {
+			return k
+		}
+		if m.NoCall {
+			return m
+		}
 		if m.Math {
 			return SVal{T: Select(Field(m.T, 0), env.coerce(k, mathKey(m.Typ)).T), Typ: types.Typ[types.Bool]}
 		}
@@ -179,7 +201,13 @@ func (env *SpecEnv) eval(e *SExpr) SVal {
 		body := fv.evalBool(&ne, e.Args[0])
 		var pats []*Term
 		for _, p := range e.Pats {
-			pats = append(pats, ne.eval(p).T)
+			pt := ne.eval(p).T
+			// a map read is ite(present, value, zero): trigger on the value read, which
+			// survives updates of the map (the ite does not)
+			for pt != nil && pt.Op == "ite" && len(pt.Args) == 3 {
+				pt = pt.Args[1]
+			}
+			pats = append(pats, pt)
 		}
 		if e.Op == "forall" {
 			return SVal{T: Forall(bvs, Implies(And(ranges...), body), pats...), Typ: types.Typ[types.Bool]}
@@ -327,6 +355,29 @@ func (env *SpecEnv) local(name string) (SVal, bool) {
 			}
 		}
 	}
+	if name == "outerindex" && f.block != nil {
+		// the hidden index of the innermost range loop strictly enclosing the current loop
+		cands = nil
+		var best *loopInfo
+		for _, li := range fv.loopsOf(f.fn).byHeader {
+			if li.header == f.block || !li.body[f.block] {
+				continue
+			}
+			if best == nil || len(li.body) < len(best.body) {
+				best = li
+			}
+		}
+		if best != nil {
+			for _, ins := range best.header.Instrs {
+				if u, ok := ins.(*ssa.UnOp); ok {
+					if a, ok := u.X.(*ssa.Alloc); ok && a.Comment == "rangeindex" {
+						cands = []*ssa.Alloc{a}
+						break
+					}
+				}
+			}
+		}
+	}
 	pick := func() *ssa.Alloc {
 		if len(cands) == 0 {
 			return nil
@@ -462,6 +513,9 @@ func (env *SpecEnv) index(e *SExpr) SVal {
 		return x
 	}
 	i := env.eval(e.Args[1])
+	if i.NoCall {
+		return i
+	}
 	if x.Math {
 		k := env.coerce(i, mathKey(x.Typ))
 		return SVal{T: Select(Field(x.T, 1), k.T), Typ: mathElem(x.Typ)}
@@ -744,6 +798,59 @@ func (env *SpecEnv) call(e *SExpr) SVal {
 			inside := And(Eq(r, Field(x.T, 0)), c.WLe(lo, j), c.WLt(j, hi))
 			body := Implies(Not(inside), Eq(Select(Select(cur, r), j), Select(Select(old, r), j)))
 			return SVal{T: Forall([]*Term{r, j}, body, Select(Select(cur, r), j)), Typ: types.Typ[types.Bool]}
+		case "frameRows":
+			// loop frame for element stores: each listed slice still has the backing array it had
+			// on loop entry or one allocated since, and every other array allocated before the
+			// loop holds what it held on loop entry. Checked like any invariant.
+			le := fv.loopEntry
+			if le == nil {
+				env.fail("frameRows() is only available in loop invariants")
+			}
+			ne := *env
+			ne.st = le
+			if env.frame != nil {
+				ne.frame = nil
+				for _, f := range le.frames {
+					if f.id == env.frame.id {
+						ne.frame = f
+					}
+				}
+			}
+			var conj []*Term
+			byKey := map[string][]*Term{}
+			sorts := map[string]*Sort{}
+			var order []string
+			for _, a := range args {
+				x := env.eval(a)
+				x0 := ne.eval(a)
+				sl, ok := types.Unalias(x.Typ).Underlying().(*types.Slice)
+				if !ok {
+					env.fail("frameRows needs slices")
+				}
+				key, hs := fv.elemsKey(sl.Elem())
+				if _, ok := byKey[key]; !ok {
+					order = append(order, key)
+				}
+				sorts[key] = hs
+				byKey[key] = append(byKey[key], Field(x0.T, 0))
+				conj = append(conj, Or(Eq(Field(x.T, 0), Field(x0.T, 0)), ILe(le.nextRef, Field(x.T, 0))))
+			}
+			for _, key := range order {
+				hs := sorts[key]
+				cur, old := fv.heap(env.st, key, hs), fv.heap(le, key, hs)
+				if sameTerm(cur, old) {
+					continue
+				}
+				r := BoundVar("r_q", SInt)
+				j := BoundVar("j_q", c.W)
+				guard := []*Term{ILe(IntLit(0), r), ILt(r, le.nextRef)}
+				for _, b := range byKey[key] {
+					guard = append(guard, Not(Eq(r, b)))
+				}
+				body := Implies(And(guard...), Eq(Select(Select(cur, r), j), Select(Select(old, r), j)))
+				conj = append(conj, Forall([]*Term{r, j}, body, Select(Select(cur, r), j)))
+			}
+			return SVal{T: And(conj...), Typ: types.Typ[types.Bool]}
 		case "snapshot":
 			// the current contents of a Go map as a mathematical map value
 			x := env.eval(args[0])
@@ -894,6 +1001,10 @@ func (env *SpecEnv) tryType(e *SExpr) (t types.Type, ok bool) {
 }
 
 func (env *SpecEnv) convertTo(x SVal, t types.Type) SVal {
+	if x.NoCall {
+		return x // result of a call that did not happen on this path
+	}
+
 	c := env.fv.ctx
 	if x.Untyped {
 		return env.coerce(x, t)
